@@ -1137,7 +1137,8 @@ def run(ctx):
                 cases.append(json.load(open(os.path.join(cdir, fn)))['case'])
     ncorpus = len(cases)
     cases += gen_cases(ctx, rng)
-    stats = dict(by_command={}, exit_nonzero=0, via={}, out={}, backends={}, optimizers={}, file_vs_stdout_pairs=0, subprocess=0)
+    stats = dict(by_command={}, exit_nonzero=0, via={}, out={}, backends={}, optimizers={}, file_vs_stdout_pairs=0, subprocess=0,
+                 falsy_option_values={})
     sigs = set()
     samples = []
     for i, case in enumerate(cases):
@@ -1159,6 +1160,11 @@ def run(ctx):
         for k, dd in (('via', stats['via']), ('out', stats['out']), ('backend', stats['backends']), ('optimizer', stats['optimizers'])):
             if case.get(k) is not None:
                 dd[case[k]] = dd.get(case[k], 0) + 1
+        for k, v in case.items():       # options given a value that is falsy in Python (0, 0.0, '', [''] ...)
+            if k in DEFAULTS and DEFAULTS[k] != v and not isinstance(v, bool) and v is not None and \
+                    (v == 0 or v == '' or (isinstance(v, list) and any(x == '' or (isinstance(x, list) and '' in x) for x in v))):
+                kk = '%s:%s=%r' % (cmd, k, v if not isinstance(v, list) else '')
+                stats['falsy_option_values'][kk] = stats['falsy_option_values'].get(kk, 0) + 1
         key = json.dumps({k: (v if k not in ('ws', 'ws2', 'patchset') else hashlib.sha1(json.dumps(v, sort_keys=True).encode()).hexdigest()[:8])
                           for k, v in case_public(case).items()}, sort_keys=True, default=str)
         nondefault = [k for k in case if k in DEFAULTS and case[k] != DEFAULTS[k]]
